@@ -325,7 +325,8 @@ class Union:
 
         template = " or ".join("({})" for t in self.types)
         return combine(
-            template, [generate_checking_code(t) for t in self.types]
+            template,
+            [generate_checking_code(t, with_bound=True) for t in self.types],
         )
 
     def __type_order__(self, other):
@@ -376,7 +377,8 @@ class Intersection:
 
         template = " and ".join("({})" for t in self.types)
         return combine(
-            template, [generate_checking_code(t) for t in self.types]
+            template,
+            [generate_checking_code(t, with_bound=True) for t in self.types],
         )
 
     def __type_order__(self, other):
